@@ -29,6 +29,7 @@ ASSUMPTIONS = [
 CASES = {"quick": 320, "thorough": 6000}
 MIN_CASES = {"quick": 80, "thorough": 1500}
 MIN_COUNTERS = {"quick": {"returned": 40}, "thorough": {"returned": 600}}
+REQUIRED_CLASSES = ["clash"]
 REQUIRED_COUNTERS = ["returned", "iterations_judged_by_contract", "final_returns_judged", "cells_checked", "hard_modules_checked", "fixed_modules_checked"]
 SOFT_DEADLINE = {"quick": 240, "thorough": 3300}
 WATCHDOG = {"quick": 900, "thorough": 7200}
@@ -66,7 +67,24 @@ def setup(ctx):
     _opt = opt
 
 
+def gen_clash(rng):
+    """over-subscribed instance: two soft modules whose squares coincide and cover whole inner cells of a fine grid, so both are
+    held at ratio 1 there.  The optimiser cannot satisfy the capacity constraint: it must not RETURN an over-occupied allocation."""
+    n = rng.choice([6, 8])
+    step = rng.choice([1.0, 0.5, 2.0])
+    W = H = n * step
+    side = rng.choice([3, 4]) * step
+    c = [rng.choice([n // 2, n // 2 - 1]) * step + (step * 0.0), rng.choice([n // 2, n // 2 - 1]) * step]
+    mods = {"S1": {"area": side * side, "center": c}, "S2": {"area": side * side, "center": list(c)}, "S3": {"area": step * step, "center": [step / 2, step / 2]}}
+    if rng.random() < 0.5:
+        mods["S2"]["area"] = (side - step) ** 2
+    return {"cls": "clash", "die": {"fam": "int", "W": W, "H": H, "regions": [], "struct": "empty", "fixed": {}, "netlist": {"Modules": mods, "Nets": [["S1", "S2"], ["S2", "S3"]]}},
+            "refine": ["grid", n, n], "alpha": rng.choice([0.3, 0.7]), "threshold": rng.choice([0.9, 0.95]), "max_iter": 1}
+
+
 def generate(rng, tier, i):
+    if i % 12 == 11:
+        return gen_clash(rng)
     fam = rng.choice(["int", "int", "half", "dec_0.1"])
     d = gd.gen_die(rng, max_n=4, fam=fam, struct=rng.choice(["empty", "empty", "random", "border", "corners"]))
     if d["nx"] < 2 or d["ny"] < 2:
